@@ -13,11 +13,12 @@ EXTENDS PageTables
 CONSTANTS I4, I3, I2, I1,      \* index universes per level
           NTF,                 \* number of table frames in the allocator pool
           LeafFs, ParentFs,    \* flag sets in play (sets of sets of bit numbers)
+          RIdx,                \* recursive index, or RNone
           Extras               \* what a mapper may add to created parent entries: subsets of {P, RW}
 
 VARIABLE last                  \* the last call and its outcome (hidden from the fingerprint by VIEW)
 
-RNone == 0 - 1                                            \* cfg: R <- RNone (no recursive slot)
+RNone == 0 - 1                                            \* cfg: RIdx <- RNone (no recursive slot)
 RootFrame == W(1048576)                                   \* 0x100000
 TableFrames == { W(4096 * k) : k \in 1 .. NTF }           \* 0x1000, 0x2000, ...
 DataFrames(s) == CASE s = 0 -> { W(36864), W(40960) }     \* 0x9000, 0xa000
@@ -48,7 +49,8 @@ UsedFrames(allocs) == { allocs[j] : j \in { j \in 1 .. Len(allocs) : allocs[j] #
 
 Init ==
     /\ root = RootFrame
-    /\ ent = IF R >= 0 THEN (RootFrame :> (R :> [addr |-> RootFrame, flags |-> {P, RW}]))
+    /\ rix = RIdx
+    /\ ent = IF RIdx >= 0 THEN (RootFrame :> (RIdx :> [addr |-> RootFrame, flags |-> {P, RW}]))
                        ELSE << >>
     /\ amap = << >>
     /\ free = TableFrames
@@ -71,14 +73,14 @@ MapAct ==
               /\ \E kd \in r.kinds :
                    last' = [op |-> "map", s |-> s, page |-> page, kind |-> kd, used |-> r.used,
                             PF |-> PF, K |-> 0]
-              /\ UNCHANGED root
+              /\ UNCHANGED <<root, rix>>
 
 Simple(op, r, s, page, K) ==
     /\ ent' = r.m /\ amap' = r.am
     /\ \E kd \in r.kinds : last' = [op |-> op, s |-> s, page |-> page, kind |-> kd, used |-> 0,
                                    PF |-> {}, K |-> K]
     /\ lastClean' = << >>
-    /\ UNCHANGED <<root, free>>
+    /\ UNCHANGED <<root, rix, free>>
 
 UnmapAct == \E s \in SizeClass : \E page \in Pages(s) :
                 Simple("unmap", UnmapSem(ent, amap, s, page), s, page, 0)
@@ -104,7 +106,7 @@ CleanAct ==
           /\ lastClean' = << rg[1], rg[2] >>
           /\ last' = [op |-> "clean", s |-> Cardinality(D), page |-> rg[1], kind |-> "Ok", used |-> 0,
                       PF |-> {}, K |-> 0]
-          /\ UNCHANGED <<root, amap>>
+          /\ UNCHANGED <<root, rix, amap>>
 
 Next == MapAct \/ UnmapAct \/ UpdateAct \/ SetFlagsAct \/ TranslatePageAct \/ CleanAct
 
